@@ -208,13 +208,19 @@ type checker struct {
 	r *rep.R
 	// per configuration
 	glbrSeen atomic.Int64 // GetLeavesByRange calls recorded by the per-worker recorders
+	sfx      string       // signature suffix of the current sequential phase ("" in the parallel phases)
 }
+
+// viol records a violation; during the disconnecting-client pass the signature says so.
+func (k *checker) viol(sig, desc string, c any) { k.r.Violation(sig+k.sfx, desc, c) }
 
 func showCalls(cs []reflog.Call) string {
 	var out []string
 	for _, c := range cs {
 		if q, ok := c.Req.(*trillian.GetLeavesByRangeRequest); ok {
 			out = append(out, fmt.Sprintf("GetLeavesByRange{LogId:%d StartIndex:%d Count:%d}", q.LogId, q.StartIndex, q.Count))
+		} else if q, ok := c.Req.(*trillian.GetEntryAndProofRequest); ok {
+			out = append(out, fmt.Sprintf("GetEntryAndProof{LogId:%d LeafIndex:%d TreeSize:%d}", q.LogId, q.LeafIndex, q.TreeSize))
 		} else {
 			out = append(out, c.Method)
 		}
@@ -241,6 +247,12 @@ func parseEntries(body []byte) ([]stored, error) {
 	d.DisallowUnknownFields()
 	if err := d.Decode(&w); err != nil {
 		return nil, err
+	}
+	// exactly one JSON value: a client's decoder stops after the first one, so anything
+	// in front of or behind the object would go unnoticed there
+	var more json.RawMessage
+	if err := d.Decode(&more); err != io.EOF {
+		return nil, fmt.Errorf("%d bytes of further data after the JSON object (%v)", len(body)-int(d.InputOffset()), err)
 	}
 	var out []stored
 	for i, e := range w.Entries {
@@ -269,7 +281,18 @@ func short(b []byte) string {
 	return s
 }
 
-const getEntriesPath = "/ct/v1/get-entries"
+const (
+	getEntriesPath    = "/ct/v1/get-entries"
+	entryAndProofPath = "/ct/v1/get-entry-and-proof"
+)
+
+func eapRequestOK(calls []reflog.Call, idx, ts int) bool {
+	if len(calls) != 1 || calls[0].Method != "GetEntryAndProof" {
+		return false
+	}
+	q := calls[0].Req.(*trillian.GetEntryAndProofRequest)
+	return q.LogId == treeID && q.LeafIndex == int64(idx) && q.TreeSize == int64(ts)
+}
 
 func (k *checker) desc(cfg config, w *world, c rcase, via, backend, lib, oracle string) caseDesc {
 	q := url.Values{}
@@ -292,18 +315,18 @@ func (k *checker) checkRequest(cfg config, w *world, c rcase, via string, calls 
 	oracle := fmt.Sprintf("exactly one GetLeavesByRange{LogId:%d StartIndex:%s Count:%s}", treeID, s, want)
 	d := k.desc(cfg, w, c, via, showCalls(calls), lib, oracle)
 	if len(calls) == 0 {
-		k.r.Violation("request: valid range answered without a backend call ["+feat+"]", fmt.Sprintf("%s tree=%d start=%s end=%s: no backend call, %s", cfg, w.size, s, e, lib), d)
+		k.viol("request: valid range answered without a backend call ["+feat+"]", fmt.Sprintf("%s tree=%d start=%s end=%s: no backend call, %s", cfg, w.size, s, e, lib), d)
 		return false
 	}
 	if len(calls) != 1 || calls[0].Method != "GetLeavesByRange" {
-		k.r.Violation("request: backend calls other than one GetLeavesByRange", fmt.Sprintf("%s tree=%d start=%s end=%s: %s", cfg, w.size, s, e, showCalls(calls)), d)
+		k.viol("request: backend calls other than one GetLeavesByRange", fmt.Sprintf("%s tree=%d start=%s end=%s: %s", cfg, w.size, s, e, showCalls(calls)), d)
 		return false
 	}
 	q := calls[0].Req.(*trillian.GetLeavesByRangeRequest)
 	ok = true
 	bad := func(sig, what string) {
 		ok = false
-		k.r.Violation(sig, fmt.Sprintf("%s tree=%d get-entries?start=%s&end=%s (%s): backend saw StartIndex=%d Count=%d; %s", cfg, w.size, s, e, via, q.StartIndex, q.Count, what), d)
+		k.viol(sig, fmt.Sprintf("%s tree=%d get-entries?start=%s&end=%s (%s): backend saw StartIndex=%d Count=%d; %s", cfg, w.size, s, e, via, q.StartIndex, q.Count, what), d)
 	}
 	if q.LogId != treeID {
 		bad("request: wrong LogId", fmt.Sprintf("LogId %d, want %d", q.LogId, treeID))
@@ -369,6 +392,11 @@ func (k *checker) countGLBR(calls []reflog.Call) {
 func (k *checker) runCase(cfg config, w *world, c rcase) {
 	x := w.get()
 	defer w.put(x)
+	k.runCaseOn(cfg, w, x, c)
+}
+
+// runCaseOn is runCase on a given front end (and its recorder).
+func (k *checker) runCaseOn(cfg config, w *world, x *cx, c rcase) {
 	x.rec.take()
 	valid, lenient, class := c.verdict()
 	q := url.Values{}
@@ -384,7 +412,7 @@ func (k *checker) runCase(cfg config, w *world, c rcase) {
 	calls := x.rec.take()
 	k.countGLBR(calls)
 	if pan {
-		k.r.Violation("panic in get-entries handler", msg+"\n"+stack, k.desc(cfg, w, c, "http", showCalls(calls), "panic: "+msg, class))
+		k.viol("panic in get-entries handler", msg+"\n"+stack, k.desc(cfg, w, c, "http", showCalls(calls), "panic: "+msg, class))
 		return
 	}
 	lib := fmt.Sprintf("HTTP %d %s", rsp.Status, short(rsp.Body))
@@ -396,10 +424,10 @@ func (k *checker) runCase(cfg config, w *world, c rcase) {
 	if !valid {
 		d := k.desc(cfg, w, c, "http", showCalls(calls), lib, "4xx without any backend call ("+class+")")
 		if len(calls) != 0 {
-			k.r.Violation("invalid parameters reach the backend: "+class, fmt.Sprintf("%s tree=%d start=%s end=%s: backend saw %s", cfg, w.size, c.start.show(), c.end.show(), showCalls(calls)), d)
+			k.viol("invalid parameters reach the backend: "+class, fmt.Sprintf("%s tree=%d start=%s end=%s: backend saw %s", cfg, w.size, c.start.show(), c.end.show(), showCalls(calls)), d)
 		}
 		if rsp.Status < 400 || rsp.Status > 499 {
-			k.r.Violation(fmt.Sprintf("invalid parameters answered %s: %s", statusClass(rsp.Status), class), fmt.Sprintf("%s tree=%d start=%s end=%s: %s", cfg, w.size, c.start.show(), c.end.show(), lib), d)
+			k.viol(fmt.Sprintf("invalid parameters answered %s: %s", statusClass(rsp.Status), class), fmt.Sprintf("%s tree=%d start=%s end=%s: %s", cfg, w.size, c.start.show(), c.end.show(), lib), d)
 		}
 		k.clientInvalid(cfg, w, x, c, class)
 		return
@@ -416,7 +444,7 @@ func (k *checker) runCase(cfg config, w *world, c rcase) {
 	if s.Cmp(size) >= 0 {
 		k.r.Add("valid_ranges_beyond_tree", 1)
 		if rsp.Status < 400 || rsp.Status > 499 {
-			k.r.Violation("response: start beyond the tree answered "+statusClass(rsp.Status)+" ["+feat+"]", fmt.Sprintf("%s tree=%d start=%s end=%s: %s", cfg, w.size, s, e, lib),
+			k.viol("response: start beyond the tree answered "+statusClass(rsp.Status)+" ["+feat+"]", fmt.Sprintf("%s tree=%d start=%s end=%s: %s", cfg, w.size, s, e, lib),
 				k.desc(cfg, w, c, "http", showCalls(calls), lib, "4xx: no entry at start"))
 		}
 		if c.core {
@@ -430,20 +458,20 @@ func (k *checker) runCase(cfg config, w *world, c rcase) {
 	oracle := fmt.Sprintf("200 with the stored leaf_input / extra_data of indices %d..%d", s0, s0+n-1)
 	d := k.desc(cfg, w, c, "http", showCalls(calls), lib, oracle)
 	if rsp.Status != 200 {
-		k.r.Violation("response: range inside the tree answered "+statusClass(rsp.Status)+" ["+feat+"]", fmt.Sprintf("%s tree=%d get-entries?start=%s&end=%s: %s; backend saw %s", cfg, w.size, s, e, lib, showCalls(calls)), d)
+		k.viol("response: range inside the tree answered "+statusClass(rsp.Status)+" ["+feat+"]", fmt.Sprintf("%s tree=%d get-entries?start=%s&end=%s: %s; backend saw %s", cfg, w.size, s, e, lib, showCalls(calls)), d)
 		k.clientValid(cfg, w, x, c, calls, rsp.Status, nil)
 		return
 	}
 	got, err := parseEntries(rsp.Body)
 	if err != nil {
-		k.r.Violation("response: body is not a get-entries JSON object", fmt.Sprintf("%s tree=%d start=%s end=%s: %v", cfg, w.size, s, e, err), d)
+		k.viol("response: body is not a get-entries JSON object", fmt.Sprintf("%s tree=%d start=%s end=%s: %v", cfg, w.size, s, e, err), d)
 		return
 	}
 	if reqOK && len(got) != n {
-		k.r.Violation("response: number of entries ["+feat+"]", fmt.Sprintf("%s tree=%d start=%s end=%s: %d entries served, want %d", cfg, w.size, s, e, len(got), n), d)
+		k.viol("response: number of entries ["+feat+"]", fmt.Sprintf("%s tree=%d start=%s end=%s: %d entries served, want %d", cfg, w.size, s, e, len(got), n), d)
 	}
 	if len(got) == 0 {
-		k.r.Violation("response: 200 without entries", fmt.Sprintf("%s tree=%d start=%s end=%s", cfg, w.size, s, e), d)
+		k.viol("response: 200 without entries", fmt.Sprintf("%s tree=%d start=%s end=%s", cfg, w.size, s, e), d)
 	}
 	k.compareStored(cfg, w, c, "http", got, s0, d)
 	if c.core || n <= 100 {
@@ -461,16 +489,16 @@ func (k *checker) compareStored(cfg config, w *world, c rcase, via string, got [
 	for i, g := range got {
 		idx := s0 + i
 		if idx >= w.size {
-			k.r.Violation("response: more entries than the tree holds ("+via+")", fmt.Sprintf("%s tree=%d: entry %d of the response would be index %d", cfg, w.size, i, idx), d)
+			k.viol("response: more entries than the tree holds ("+via+")", fmt.Sprintf("%s tree=%d: entry %d of the response would be index %d", cfg, w.size, i, idx), d)
 			return
 		}
 		st := w.stored[idx]
 		if !bytes.Equal(g.leaf, st.leaf) {
-			k.r.Violation("response: leaf_input differs from the stored leaf ("+via+")", fmt.Sprintf("%s tree=%d start=%s end=%s: entry %d (index %d) leaf_input %s, stored %s%s", cfg, w.size, c.start.show(), c.end.show(), i, idx, rep.Hex(g.leaf), rep.Hex(st.leaf), whichIndex(w, g.leaf, true)), d)
+			k.viol("response: leaf_input differs from the stored leaf ("+via+")", fmt.Sprintf("%s tree=%d start=%s end=%s: entry %d (index %d) leaf_input %s, stored %s%s", cfg, w.size, c.start.show(), c.end.show(), i, idx, rep.Hex(g.leaf), rep.Hex(st.leaf), whichIndex(w, g.leaf, true)), d)
 			return
 		}
 		if !bytes.Equal(g.extra, st.extra) {
-			k.r.Violation("response: extra_data differs from the stored extra data ("+via+")", fmt.Sprintf("%s tree=%d start=%s end=%s: entry %d (index %d) extra_data %s, stored %s%s", cfg, w.size, c.start.show(), c.end.show(), i, idx, rep.Hex(g.extra), rep.Hex(st.extra), whichIndex(w, g.extra, false)), d)
+			k.viol("response: extra_data differs from the stored extra data ("+via+")", fmt.Sprintf("%s tree=%d start=%s end=%s: entry %d (index %d) extra_data %s, stored %s%s", cfg, w.size, c.start.show(), c.end.show(), i, idx, rep.Hex(g.extra), rep.Hex(st.extra), whichIndex(w, g.extra, false)), d)
 			return
 		}
 		// the served bytes equal the stored bytes: judge their decoding once per index
@@ -576,16 +604,16 @@ func (k *checker) decodeOracle(w *world, idx int, g stored) {
 	kind := kindOf(s)
 	switch {
 	case pan:
-		k.r.Violation("decode: panic in LogEntryFromLeaf kind="+kind, msg+"\n"+stack, d)
+		k.viol("decode: panic in LogEntryFromLeaf kind="+kind, msg+"\n"+stack, d)
 	case err != nil || rerr != nil:
-		k.r.Violation("decode: LogEntryFromLeaf fails on a served entry kind="+kind, fmt.Sprintf("index %d (%s): LogEntryFromLeaf err=%v, RawLogEntryFromLeaf err=%v", idx, s.label, err, rerr), d)
+		k.viol("decode: LogEntryFromLeaf fails on a served entry kind="+kind, fmt.Sprintf("index %d (%s): LogEntryFromLeaf err=%v, RawLogEntryFromLeaf err=%v", idx, s.label, err, rerr), d)
 	default:
 		if m := entryMismatch(e, idx, s); m != "" {
-			k.r.Violation("decode: LogEntryFromLeaf "+m+" differs from the submission kind="+kind, fmt.Sprintf("index %d (%s): field %q", idx, s.label, m), d)
+			k.viol("decode: LogEntryFromLeaf "+m+" differs from the submission kind="+kind, fmt.Sprintf("index %d (%s): field %q", idx, s.label, m), d)
 		}
 		if raw.Index != int64(idx) || !bytes.Equal(raw.Cert.Data, s.leaf.DER) || !eqChain(raw.Chain, s.chainDER()) ||
 			raw.Leaf.TimestampedEntry == nil || raw.Leaf.TimestampedEntry.Timestamp != s.tsMillis {
-			k.r.Violation("decode: RawLogEntryFromLeaf differs from the submission kind="+kind, fmt.Sprintf("index %d (%s)", idx, s.label), d)
+			k.viol("decode: RawLogEntryFromLeaf differs from the submission kind="+kind, fmt.Sprintf("index %d (%s)", idx, s.label), d)
 		}
 	}
 }
@@ -612,36 +640,36 @@ func (k *checker) clientValid(cfg config, w *world, x *cx, c rcase, first []refl
 	k.countGLBR(c2)
 	d := k.desc(cfg, w, c, "client.LogClient", showCalls(c1)+" / "+showCalls(c2), fmt.Sprintf("GetRawEntries err=%v; GetEntries err=%v", rerr, eerr), "same request and same entries as the direct HTTP call")
 	if pan {
-		k.r.Violation("panic in client.LogClient get-entries", msg+"\n"+stack, d)
+		k.viol("panic in client.LogClient get-entries", msg+"\n"+stack, d)
 		return
 	}
 	if !sameRequest(first, c1) || !sameRequest(first, c2) {
-		k.r.Violation("client: backend request differs from the one of the direct HTTP call", fmt.Sprintf("%s tree=%d start=%d end=%d: http %s, GetRawEntries %s, GetEntries %s", cfg, w.size, s, e, showCalls(first), showCalls(c1), showCalls(c2)), d)
+		k.viol("client: backend request differs from the one of the direct HTTP call", fmt.Sprintf("%s tree=%d start=%d end=%d: http %s, GetRawEntries %s, GetEntries %s", cfg, w.size, s, e, showCalls(first), showCalls(c1), showCalls(c2)), d)
 	}
 	if status != 200 {
 		if rerr == nil || eerr == nil {
-			k.r.Violation("client: no error although the log answered "+statusClass(status), fmt.Sprintf("%s tree=%d start=%d end=%d", cfg, w.size, s, e), d)
+			k.viol("client: no error although the log answered "+statusClass(status), fmt.Sprintf("%s tree=%d start=%d end=%d", cfg, w.size, s, e), d)
 		}
 		return
 	}
 	if rerr != nil || rawRsp == nil {
-		k.r.Violation("client: GetRawEntries fails on a 200 answer", fmt.Sprintf("%s tree=%d start=%d end=%d: %v", cfg, w.size, s, e, rerr), d)
+		k.viol("client: GetRawEntries fails on a 200 answer", fmt.Sprintf("%s tree=%d start=%d end=%d: %v", cfg, w.size, s, e, rerr), d)
 	} else {
 		var cg []stored
 		for _, le := range rawRsp.Entries {
 			cg = append(cg, stored{leaf: le.LeafInput, extra: le.ExtraData})
 		}
 		if len(cg) != len(got) {
-			k.r.Violation("client: GetRawEntries entry count differs from the HTTP body", fmt.Sprintf("%s tree=%d start=%d end=%d: %d vs %d", cfg, w.size, s, e, len(cg), len(got)), d)
+			k.viol("client: GetRawEntries entry count differs from the HTTP body", fmt.Sprintf("%s tree=%d start=%d end=%d: %d vs %d", cfg, w.size, s, e, len(cg), len(got)), d)
 		}
 		k.compareStored(cfg, w, c, "GetRawEntries", cg, int(s), d)
 	}
 	if eerr != nil {
-		k.r.Violation("client: GetEntries fails on a 200 answer", fmt.Sprintf("%s tree=%d start=%d end=%d: %v", cfg, w.size, s, e, eerr), d)
+		k.viol("client: GetEntries fails on a 200 answer", fmt.Sprintf("%s tree=%d start=%d end=%d: %v", cfg, w.size, s, e, eerr), d)
 		return
 	}
 	if len(ents) != len(got) {
-		k.r.Violation("client: GetEntries entry count differs from the HTTP body", fmt.Sprintf("%s tree=%d start=%d end=%d: %d vs %d", cfg, w.size, s, e, len(ents), len(got)), d)
+		k.viol("client: GetEntries entry count differs from the HTTP body", fmt.Sprintf("%s tree=%d start=%d end=%d: %d vs %d", cfg, w.size, s, e, len(ents), len(got)), d)
 	}
 	for i := range ents {
 		idx := int(s) + i
@@ -649,7 +677,7 @@ func (k *checker) clientValid(cfg config, w *world, x *cx, c rcase, first []refl
 			break
 		}
 		if m := entryMismatch(&ents[i], idx, w.subs[idx]); m != "" {
-			k.r.Violation("client: GetEntries "+m+" differs from the submission kind="+kindOf(w.subs[idx]), fmt.Sprintf("%s tree=%d start=%d end=%d: entry %d (index %d, %s) field %q", cfg, w.size, s, e, i, idx, w.subs[idx].label, m), d)
+			k.viol("client: GetEntries "+m+" differs from the submission kind="+kindOf(w.subs[idx]), fmt.Sprintf("%s tree=%d start=%d end=%d: entry %d (index %d, %s) field %q", cfg, w.size, s, e, i, idx, w.subs[idx].label, m), d)
 			break
 		}
 	}
@@ -674,11 +702,11 @@ func (k *checker) clientInvalid(cfg config, w *world, x *cx, c rcase, class stri
 	d := k.desc(cfg, w, c, "client.LogClient", showCalls(calls), fmt.Sprintf("GetRawEntries err=%v; GetEntries err=%v", rerr, eerr), "error, no backend call")
 	switch {
 	case pan:
-		k.r.Violation("panic in client.LogClient get-entries", msg+"\n"+stack, d)
+		k.viol("panic in client.LogClient get-entries", msg+"\n"+stack, d)
 	case len(calls) != 0:
-		k.r.Violation("invalid parameters reach the backend through the client: "+class, fmt.Sprintf("%s start=%d end=%d: %s", cfg, s, e, showCalls(calls)), d)
+		k.viol("invalid parameters reach the backend through the client: "+class, fmt.Sprintf("%s start=%d end=%d: %s", cfg, s, e, showCalls(calls)), d)
 	case rerr == nil || eerr == nil:
-		k.r.Violation("client: no error for invalid parameters: "+class, fmt.Sprintf("%s start=%d end=%d", cfg, s, e), d)
+		k.viol("client: no error for invalid parameters: "+class, fmt.Sprintf("%s start=%d end=%d", cfg, s, e), d)
 	}
 }
 
@@ -697,9 +725,9 @@ func (k *checker) methodCheck(cfg config, w *world) {
 		d := map[string]any{"config": cfg.String(), "tree_size": w.size, "method": m, "url": "/log" + getEntriesPath + "?" + q.Encode(), "library": fmt.Sprintf("HTTP %d %s", rsp.Status, short(rsp.Body)), "backend_calls_seen": showCalls(calls)}
 		switch {
 		case pan:
-			k.r.Violation("panic in get-entries handler", msg+"\n"+stack, d)
+			k.viol("panic in get-entries handler", msg+"\n"+stack, d)
 		case len(calls) != 0 || rsp.Status < 400 || rsp.Status > 499:
-			k.r.Violation("get-entries with a method other than GET reaches the backend or is not answered 4xx", fmt.Sprintf("%s %s: HTTP %d, backend saw %s", cfg, m, rsp.Status, showCalls(calls)), d)
+			k.viol("get-entries with a method other than GET reaches the backend or is not answered 4xx", fmt.Sprintf("%s %s: HTTP %d, backend saw %s", cfg, m, rsp.Status, showCalls(calls)), d)
 		}
 	}
 }
@@ -810,6 +838,10 @@ func cases(max int64, size int, squareUpTo int64, thorough bool) []rcase {
 func (k *checker) entryAndProof(cfg config, w *world, idx int) {
 	x := w.get()
 	defer w.put(x)
+	k.entryAndProofOn(cfg, w, x, idx)
+}
+
+func (k *checker) entryAndProofOn(cfg config, w *world, x *cx, idx int) {
 	x.rec.take()
 	for _, ts := range []int{idx + 1, w.size} {
 		if ts != w.size && ts != idx+1 {
@@ -818,19 +850,25 @@ func (k *checker) entryAndProof(cfg config, w *world, idx int) {
 		k.r.Eval(1)
 		k.r.Nontrivial(fmt.Sprintf("eap|%d|%d|%d", w.size, idx, ts))
 		var rp, re fe.Resp
+		var pcalls []reflog.Call
 		pan, msg, stack := enum.Catch(func() {
-			rp = x.f.Get("/ct/v1/get-entry-and-proof", "leaf_index", fmt.Sprint(idx), "tree_size", fmt.Sprint(ts))
+			rp = x.f.Get(entryAndProofPath, "leaf_index", fmt.Sprint(idx), "tree_size", fmt.Sprint(ts))
+			pcalls = x.rec.take()
 			re = x.f.Get(getEntriesPath, "start", fmt.Sprint(idx), "end", fmt.Sprint(idx))
 		})
 		k.countGLBR(x.rec.take())
 		d := map[string]any{"config": cfg.String(), "tree_size_of_log": w.size, "leaf_index": idx, "tree_size": ts,
 			"get_entry_and_proof": fmt.Sprintf("HTTP %d %s", rp.Status, short(rp.Body)), "get_entries": fmt.Sprintf("HTTP %d %s", re.Status, short(re.Body))}
 		if pan {
-			k.r.Violation("panic in get-entry-and-proof", msg+"\n"+stack, d)
+			k.viol("panic in get-entry-and-proof", msg+"\n"+stack, d)
 			return
 		}
+		if !eapRequestOK(pcalls, idx, ts) {
+			d["backend_calls_seen"] = showCalls(pcalls)
+			k.viol("get-entry-and-proof: backend request is not one GetEntryAndProof for the index and tree size", fmt.Sprintf("index %d tree_size %d: %s", idx, ts, showCalls(pcalls)), d)
+		}
 		if rp.Status != 200 || re.Status != 200 {
-			k.r.Violation("get-entry-and-proof / get-entries of an existing index not answered 200", fmt.Sprintf("index %d tree_size %d of a log of %d: %d / %d", idx, ts, w.size, rp.Status, re.Status), d)
+			k.viol("get-entry-and-proof / get-entries of an existing index not answered 200", fmt.Sprintf("index %d tree_size %d of a log of %d: %d / %d", idx, ts, w.size, rp.Status, re.Status), d)
 			continue
 		}
 		var pr struct {
@@ -839,21 +877,21 @@ func (k *checker) entryAndProof(cfg config, w *world, idx int) {
 			AuditPath []string `json:"audit_path"`
 		}
 		if err := json.Unmarshal(rp.Body, &pr); err != nil || pr.LeafInput == nil || pr.ExtraData == nil {
-			k.r.Violation("get-entry-and-proof body malformed", fmt.Sprintf("index %d: %v", idx, err), d)
+			k.viol("get-entry-and-proof body malformed", fmt.Sprintf("index %d: %v", idx, err), d)
 			continue
 		}
 		li, err1 := base64.StdEncoding.Strict().DecodeString(*pr.LeafInput)
 		ed, err2 := base64.StdEncoding.Strict().DecodeString(*pr.ExtraData)
 		ge, err3 := parseEntries(re.Body)
 		if err1 != nil || err2 != nil || err3 != nil || len(ge) != 1 {
-			k.r.Violation("get-entry-and-proof body malformed", fmt.Sprintf("index %d: %v %v %v, %d entries", idx, err1, err2, err3, len(ge)), d)
+			k.viol("get-entry-and-proof body malformed", fmt.Sprintf("index %d: %v %v %v, %d entries", idx, err1, err2, err3, len(ge)), d)
 			continue
 		}
 		if !bytes.Equal(li, ge[0].leaf) || !bytes.Equal(ed, ge[0].extra) {
-			k.r.Violation("get-entry-and-proof bytes differ from get-entries for the same index", fmt.Sprintf("index %d tree_size %d: leaf_input equal=%v extra_data equal=%v", idx, ts, bytes.Equal(li, ge[0].leaf), bytes.Equal(ed, ge[0].extra)), d)
+			k.viol("get-entry-and-proof bytes differ from get-entries for the same index", fmt.Sprintf("index %d tree_size %d: leaf_input equal=%v extra_data equal=%v", idx, ts, bytes.Equal(li, ge[0].leaf), bytes.Equal(ed, ge[0].extra)), d)
 		}
 		if !bytes.Equal(li, w.stored[idx].leaf) || !bytes.Equal(ed, w.stored[idx].extra) {
-			k.r.Violation("get-entry-and-proof bytes differ from the stored leaf", fmt.Sprintf("index %d tree_size %d%s", idx, ts, whichIndex(w, li, true)), d)
+			k.viol("get-entry-and-proof bytes differ from the stored leaf", fmt.Sprintf("index %d tree_size %d%s", idx, ts, whichIndex(w, li, true)), d)
 		}
 	}
 }
@@ -1006,24 +1044,24 @@ func (k *checker) hookPhase(cfg config, hw *world) {
 				c := rcase{num(bi(s)), num(bi(e)), true}
 				lib := fmt.Sprintf("HTTP %d %s", rsp.Status, short(rsp.Body))
 				if pan {
-					k.r.Violation("panic in get-entries handler (scripted reply)", msg+"\n"+stack, k.desc(cfg, hw, c, "http, "+sc.name, showCalls(calls), "panic", ""))
+					k.viol("panic in get-entries handler (scripted reply)", msg+"\n"+stack, k.desc(cfg, hw, c, "http, "+sc.name, showCalls(calls), "panic", ""))
 					continue
 				}
 				if expect == nil {
 					d := k.desc(cfg, hw, c, "http, "+sc.name, showCalls(calls), lib, "not 200: the reply does not hold the leaves of start, start+1, ...")
 					if rsp.Status == 200 {
-						k.r.Violation("scripted reply served although its leaves are not those of the range: "+sc.name, fmt.Sprintf("%s start=%d end=%d: %s", cfg, s, e, lib), d)
+						k.viol("scripted reply served although its leaves are not those of the range: "+sc.name, fmt.Sprintf("%s start=%d end=%d: %s", cfg, s, e, lib), d)
 					}
 					continue
 				}
 				d := k.desc(cfg, hw, c, "http, "+sc.name, showCalls(calls), lib, fmt.Sprintf("200 with exactly the %d scripted leaves, unmodified", len(expect)))
 				if rsp.Status != 200 {
-					k.r.Violation("scripted reply not passed through ("+statusClass(rsp.Status)+"): "+strings.SplitN(sc.name, ":", 2)[0], fmt.Sprintf("%s start=%d end=%d %s: %s", cfg, s, e, sc.name, lib), d)
+					k.viol("scripted reply not passed through ("+statusClass(rsp.Status)+"): "+strings.SplitN(sc.name, ":", 2)[0], fmt.Sprintf("%s start=%d end=%d %s: %s", cfg, s, e, sc.name, lib), d)
 					continue
 				}
 				got, err := parseEntries(rsp.Body)
 				if err != nil {
-					k.r.Violation("response: body is not a get-entries JSON object", fmt.Sprint(err), d)
+					k.viol("response: body is not a get-entries JSON object", fmt.Sprint(err), d)
 					continue
 				}
 				same := len(got) == len(expect)
@@ -1031,7 +1069,7 @@ func (k *checker) hookPhase(cfg config, hw *world) {
 					same = bytes.Equal(got[i].leaf, expect[i].leaf) && bytes.Equal(got[i].extra, expect[i].extra)
 				}
 				if !same {
-					k.r.Violation("scripted reply not passed through unchanged: "+strings.SplitN(sc.name, ":", 2)[0], fmt.Sprintf("%s start=%d end=%d %s: %d entries served, %d scripted", cfg, s, e, sc.name, len(got), len(expect)), d)
+					k.viol("scripted reply not passed through unchanged: "+strings.SplitN(sc.name, ":", 2)[0], fmt.Sprintf("%s start=%d end=%d %s: %d entries served, %d scripted", cfg, s, e, sc.name, len(got), len(expect)), d)
 				}
 			}
 		}
@@ -1087,13 +1125,17 @@ func TestCheck(t *testing.T) {
 		"plus every pair of [0, 3max+2]^2 for max <= %d, plus %d raw strings (missing, empty, x, 1e3, +1, ' 1', '1 ', 2^63, -2^63-1, 0x10, 1.0, 1_0, -0, 007, a non-ASCII digit, '1,2', 26 digits) for each parameter against each other and against well-formed partners; "+
 		"each valid request is repeated through client.LogClient.GetRawEntries and GetEntries over the in-process RoundTripper; a well-formed range with POST / HEAD / PUT / DELETE; per world every index (large worlds: boundary indices and every 97th) through get-entry-and-proof at tree_size index+1 and size; "+
 		"per configuration scripted backend replies (short by 1..n leaves, undecodable / empty / oversized bytes, surplus leaf, shifted / swapped / stale indices) on every in-tree range of a 5-leaf (thorough: 12-leaf) log. "+
-		"distinct_nontrivial = distinct (config, tree size, start, end) with 0 <= start <= end (a backend call is due), plus get-entry-and-proof probes and applied scripts",
-		maxes, map[bool]string{true: ", 2, max, 3max", false: ""}[th], nShapes, map[bool]string{true: " and +-1, +-2 around each, and the largest multiple of max below 2^63", false: ""}[th], squareMax, len(rawStrings)))
+		"per configuration a disconnecting-client pass on the 5-leaf log (sequential, GOMAXPROCS(1), collector off): each of 6 requests (get-entries answered 200 / 4xx, get-entry-and-proof) served to a ResponseWriter whose Write fails after 0 bytes / 1 byte / half of the body or reports a short write (0 bytes / half) without error, followed back to back by 1..3 ordinary requests (the same request, another range, get-entry-and-proof%s) plus a closing get-entries and get-entry-and-proof, each compared byte for byte with its fault-free answer and judged by the ordinary oracle. "+
+		"distinct_nontrivial = distinct (config, tree size, start, end) with 0 <= start <= end (a backend call is due), plus get-entry-and-proof probes, applied scripts and disconnect sequences",
+		maxes, map[bool]string{true: ", 2, max, 3max", false: ""}[th], nShapes, map[bool]string{true: " and +-1, +-2 around each, and the largest multiple of max below 2^63", false: ""}[th], squareMax, len(rawStrings),
+		map[bool]string{true: ", an invalid request; further fault offsets 7, length-1", false: ""}[th]))
 	r.Assume(
 		"a parameter is a decimal integer iff it matches -?[0-9]+ (RFC 6962 s4.6 'in decimal'); an explicit plus sign is left open: either refused with 4xx and no backend call, or read as the integer it denotes (counted in plus_sign_*)",
 		"with alignment off the backend must be asked for exactly min(end-start+1, max) entries; with alignment on, requests of at least max entries are cut at the next multiple of max (Count = max - start mod max, the documented coercion), which only ever shortens the range",
 		"the reference backend returns the leaves it holds from start (fewer than asked at the end of the tree), so the expected response is min(Count, size-start) entries; start >= size must be answered 4xx",
 		"replies of a misbehaving backend (surplus, wrong or unordered indices) must not be served with status 200",
+		"a response body is exactly one JSON value (optionally followed by white space): bytes in front of or behind it are a violation even where a streaming decoder would not notice them",
+		"a request whose response cannot be written (client gone, short write) must leave no trace: every later answer is byte-identical to the fault-free answer to the same request; for a failing (not short) writer the bytes it accepted are a prefix of the fault-free body",
 		"the entry parser is judged once per (history, index) on bytes already proven identical to the stored ones",
 		"precertificate ground truth: tbs_certificate = the template without the poison extension (issuer name and authority key identifier of the final issuer when a pre-issuer signed), issuer_key_hash = SHA-256 of the final issuer's SubjectPublicKeyInfo")
 
@@ -1200,6 +1242,7 @@ func TestCheck(t *testing.T) {
 			}
 			if !capped {
 				k.hookPhase(cfg, hookWorld)
+				k.disconnectPhase(cfg, worlds[5])
 			}
 		}
 	}
